@@ -209,6 +209,17 @@ func (p *pathNode) addPathNodeFor(name string, pn *pathNode) {
 // returned by this function. Any operations on the removed tree must use this
 // value.
 func (p *pathNode) removeWithName(name string, fn func(ref *fidRef)) *pathNode {
+	// The references taken around the callbacks are dropped only after
+	// childMu is released: a last DecRef unregisters the reference from its
+	// parent's pathNode, which takes that node's childMu -- and after a
+	// rename within one directory that node is p.
+	var release []*fidRef
+	defer func() {
+		for _, ref := range release {
+			ref.DecRef()
+		}
+	}()
+
 	p.childMu.Lock()
 	defer p.childMu.Unlock()
 
@@ -226,7 +237,7 @@ func (p *pathNode) removeWithName(name string, fn func(ref *fidRef)) *pathNode {
 			// been destroyed, then we can skip the callback.
 			if ref.TryIncRef() {
 				fn(ref)
-				ref.DecRef()
+				release = append(release, ref)
 			}
 		}
 	}
